@@ -48,6 +48,26 @@ def config_heap(it, pc, stab, criteria, twopl=S('TWOPL'), na=S('NA'), bf=False):
                 ext = ('tuple', tuple(ex))
             crit.append(('tuple', (E('Optimisation_options', name), ext)))
         it.heap[A(op, 'optimisation_options')] = ('tuple', tuple(crit))
+        # the parser may hand the (criterion, arguments) pairs over as records of a two-field namedtuple (C16.R6 decides that the
+        # fields are filled in that order): the configuration's pairs then answer to the field names too
+        fields = record_fields(it)
+        if fields:
+            if not hasattr(it, 'ntuple_fields'):
+                it.ntuple_fields = {}
+            for c_ in crit:
+                it.ntuple_fields[c_] = fields
+
+
+def record_fields(it):
+    import ast as _ast
+    h = it.repo.classes.get('Options_parser', {}).get('_get_ordered_optimisations') or it.repo.method('Options_parser', '_get_ordered_optimisations', required=False)
+    if h is None:
+        return None
+    nts = it.namedtuples()
+    used = {n.func.id for n in _ast.walk(h.node) if isinstance(n, _ast.Call) and isinstance(n.func, _ast.Name) and n.func.id in nts and len(n.args) == 2 and not n.keywords}
+    if len(used) == 1 and len(nts[next(iter(used))]) == 2:
+        return nts[next(iter(used))]
+    return None
 
 
 def extract(repo, pc=S('PC'), stab=S('STAB'), criteria=None, entry=('Solver', 'solve'), **kw):
